@@ -41,6 +41,7 @@ pub mod map {
     pub const REMOVE_NTH: u16 = 34;
     pub const GET_ABSENT: u16 = 35;
     pub const RAW_ENTRY_RO: u16 = 36;
+    pub const REHASH_SETUP: u16 = 37;
 }
 
 pub static MAP_OPS: &[OpSpec] = &[
@@ -81,6 +82,7 @@ pub static MAP_OPS: &[OpSpec] = &[
     OpSpec { code: map::REMOVE_NTH, name: "remove_nth", args: &[Frac] },
     OpSpec { code: map::GET_ABSENT, name: "get_absent", args: &[Small(4)] },
     OpSpec { code: map::RAW_ENTRY_RO, name: "raw_entry", args: &[Key, Choice(3)] },
+    OpSpec { code: map::REHASH_SETUP, name: "rehash_setup", args: &[Small(6)] },
 ];
 
 pub fn specs_for(kind: &str) -> &'static [OpSpec] {
